@@ -30,7 +30,7 @@ MAX_VIOLATION_FILES = int(os.environ.get('VERIF_MAXV', '25'))
 MAX_SAMPLES = 6
 
 
-from mc.core import (HarnessError, Sub, ok, trivial, raised_ok, viol,  # noqa: E402,F401
+from mc.core import (REPO, HarnessError, Sub, ok, trivial, raised_ok, viol,  # noqa: E402,F401
                      _short, _jsonable)
 
 
@@ -153,10 +153,10 @@ def match_known(known, sub_name, key):
 
 def repo_state():
     try:
-        head = subprocess.run(['git', '-C', '/repo', 'rev-parse', 'HEAD'],
+        head = subprocess.run(['git', '-C', REPO, 'rev-parse', 'HEAD'],
                               capture_output=True, text=True).stdout.strip()
         dirty = subprocess.run(
-            ['git', '-C', '/repo', 'status', '--porcelain', '--untracked-files=no'],
+            ['git', '-C', REPO, 'status', '--porcelain', '--untracked-files=no'],
             capture_output=True, text=True).stdout.strip() != ''
     except Exception:
         head, dirty = 'unknown', True
@@ -228,8 +228,11 @@ def main(argv=None):
     np.random.seed(seed % (2 ** 32))
 
     import pb_bss
-    if not os.path.abspath(pb_bss.__file__).startswith('/repo/'):
-        print('HARNESS-ERROR: pb_bss is not imported from /repo:', pb_bss.__file__)
+    if not os.path.abspath(pb_bss.__file__).startswith(REPO + '/'):
+        print(f'HARNESS-ERROR: pb_bss is not imported from {REPO}:', pb_bss.__file__)
+        return 2
+    if REPO != '/repo' and not args.no_evidence:
+        print('HARNESS-ERROR: VERIF_REPO is only for trying changes in a scratch worktree; use --no-evidence')
         return 2
 
     if args.replay:
